@@ -115,6 +115,11 @@ def one_history(ctx, hno, steps):
                 bi.size = v
             elif r < 0.6:
                 v = rng.randrange(0, min(bi.size, 14) + 1)
+                if rng.random() < 0.04 and bi.size > 14:
+                    # a large jump (a .bss-like interval materialised): page
+                    # and buffer boundaries
+                    v = min(bi.size, rng.choice([255, 256, 4095, 4096, 4097,
+                                                 8193, 20000, 70000]))
                 line = "init %d" % v
                 exp_c = before[:v] + b"\0" * max(0, v - len(before))
                 exp_s = bsize
@@ -161,8 +166,9 @@ def one_history(ctx, hno, steps):
             ctx.count("op:" + line.split()[0])
         got_c = bytes(bi.contents)
         if got_c != exp_c or bi.size != exp_s:
-            return fail("storage-semantics", "after %r: contents %r size %r, "
-                        "expected %r size %r" % (line, got_c, bi.size, exp_c,
+            return fail("storage-semantics", "after %r: contents %s size %r, "
+                        "expected %s size %r" % (line, brief(got_c), bi.size,
+                                                 brief(exp_c),
                                                  exp_s))
         if bi.initialized_size != len(bi.contents):
             return fail("initialized-size", "initialized_size != stored bytes")
@@ -230,6 +236,12 @@ def one_history(ctx, hno, steps):
     if hno < 2:
         ctx.sample({"script": script[:10], "final": impl[-1]})
     return True
+
+
+def brief(b):
+    b = bytes(b)
+    return repr(b) if len(b) <= 40 else "%r... (%d bytes, %d of them zero)" \
+        % (b[:24], len(b), b.count(0))
 
 
 def run(ctx):
